@@ -16,11 +16,14 @@
 package mcpx
 
 import (
+	"bytes"
 	"context"
 	"encoding/json"
 	"errors"
 	"fmt"
+	"io"
 	"log/slog"
+	"net/http"
 	"sort"
 	"strings"
 	"sync"
@@ -50,6 +53,9 @@ type c18Op struct {
 	Kind string `json:"kind,omitempty"`
 	Sess int    `json:"sess,omitempty"`
 	URI  int    `json:"uri,omitempty"`
+	// Gateway: sub on a 2026-07-28 session over stateless HTTP: the POST that opens the listen stream is answered with
+	// this status by a gateway (503, 502, 429): Subscribe must not report success then
+	Gateway int `json:"gateway,omitempty"`
 }
 
 type c18Spec struct {
@@ -171,6 +177,12 @@ func genC18(r *vh.Rand, idx int) c18Spec {
 		}
 	}
 	s.EndAt = at + 150
+	// a gateway refuses the POST that would open a listen stream (stateless HTTP, 2026-07-28)
+	for i := range s.Ops {
+		if op := &s.Ops[i]; op.Op == "sub" && s.Sessions[op.Sess].Version == "2026-07-28" && s.Sessions[op.Sess].Kind == "http-stateless" && r.Chance(1, 4) {
+			op.Gateway = []int{503, 502, 429, 504}[r.Intn(4)]
+		}
+	}
 	return s
 }
 
@@ -272,6 +284,7 @@ type c18SessRT struct {
 	srvWrites  map[string][]c18Arrival // method -> server-side writes (in-memory sessions)
 	recvs      map[string][]c18Arrival // method -> client-side receipts
 	subEvents  map[string][]c18SubEv   // uri -> events
+	gateway    map[string]int          // uri -> HTTP status with which a gateway refuses the next listen POST naming it
 }
 
 type c18World struct {
@@ -604,6 +617,32 @@ func runC18(c *vh.Case, spec c18Spec) *c18World {
 				}}
 			}
 		}
+		po.Before = func(req *http.Request, _ int64) (*http.Response, error) {
+			if req.Method != "POST" || req.Body == nil {
+				return nil, nil
+			}
+			b, _ := io.ReadAll(req.Body)
+			req.Body = io.NopCloser(bytes.NewReader(b))
+			if !bytes.Contains(b, []byte(`"subscriptions/listen"`)) {
+				return nil, nil
+			}
+			w.mu.Lock()
+			st := 0
+			for u, code := range rt.gateway {
+				if bytes.Contains(b, []byte(u)) {
+					st = code
+					delete(rt.gateway, u)
+					break
+				}
+			}
+			w.mu.Unlock()
+			if st == 0 {
+				return nil, nil
+			}
+			log.Add("gateway-refusal", "status", st, "sess", si)
+			return &http.Response{StatusCode: st, Status: fmt.Sprintf("%d %s", st, http.StatusText(st)), Proto: "HTTP/1.1", ProtoMajor: 1, ProtoMinor: 1,
+				Header: http.Header{"Content-Type": []string{"text/plain"}}, Body: io.NopCloser(strings.NewReader("try later")), Request: req}, nil
+		}
 		log.Add("connect-start", "sess", si)
 		pair, err := vhm.Connect(ctx, po)
 		if err != nil {
@@ -788,6 +827,14 @@ func runC18(c *vh.Case, spec c18Spec) *c18World {
 			rt.subEvents[uri] = append(rt.subEvents[uri], c18SubEv{e.Seq, e.T, op.Op + "-called"})
 			w.mu.Unlock()
 			var err error
+			if op.Op == "sub" && op.Gateway != 0 {
+				w.mu.Lock()
+				if rt.gateway == nil {
+					rt.gateway = map[string]int{}
+				}
+				rt.gateway[uri] = op.Gateway // the next listen POST naming this URI is refused by a gateway
+				w.mu.Unlock()
+			}
 			if op.Op == "sub" {
 				err = cs.Subscribe(ctx, &mcp.SubscribeParams{URI: uri})
 			} else {
